@@ -5,13 +5,12 @@ SrcRunnerDefs.lean for what a shape fixes and what stays quantified).
 -/
 import PamsLemmas.EvalNf
 import PamsLemmas.SrcRunnerDefs
+import PamsLemmas.OrderSimp
 
 namespace Pams.Src
 open Pams Pams.Py Pams.Runner
 variable {K : Type} [LinearOrder K] [NumOpsC K]
 
-theorem lt_false_of_le {α : Type} [LinearOrder α] {a b : α} (h : b ≤ a) : (a < b) = False := eq_false (not_lt.mpr h)
-theorem le_false_of_lt {α : Type} [LinearOrder α] {a b : α} (h : b < a) : (a ≤ b) = False := eq_false (not_le.mpr h)
 
 /-! ### shapes of `_handle_orders` -/
 
